@@ -259,6 +259,38 @@ def gen_scripts(thorough):
         b.op("state")
         b.op("peer_close")
         finish(b, [1, 2], "cancel-isolated", "req1", other=other)
+    # a reply split across a cancellation / Close: the peer sends the reply's first `cut` bytes (nothing but part of the header;
+    # exactly the header; header + part of the payload; all but the last byte), the waiting caller is cancelled (or the client is
+    # closed), the peer sends the rest. The stream must stay usable: another caller (already in flight, or started afterwards) gets
+    # its reply, and after the connection ends Connect and everybody return.
+    plen = 40
+    cuts = [3, 9, 10, 11, 30, 10 + plen - 1] if not thorough else [1, 3, 5, 9, 10, 11, 12, 20, 30, 45, 10 + plen - 1]
+    for how in ("cancel", "close"):
+        for inflight in (False, True):
+            for version in ((1,) if not thorough else (1, 2)):
+                for cut in cuts:
+                    b = cc.SB("c09-split-%s-%s-cut%d-v%d" % (how, "inflight" if inflight else "later", cut, version), version=version)
+                    b.connect()
+                    base = b.nseen                 # message ids follow the frames written so far (negotiation frames first)
+                    b.send(1, 20, 8, 421)
+                    if inflight:
+                        b.send(2, 21, 9, 422)
+                    rep = dict(op="peer_send", typ=30, id=base, ver=version, pl=dict(k="tag", len=plen, tag=423))
+                    b.steps.append(dict(rep, cut=cut))
+                    if how == "cancel":
+                        b.cancel(1)
+                    else:
+                        b.op("close")
+                    b.steps.append(dict(rep, skip=cut))
+                    other = 2
+                    if how == "cancel":
+                        if not inflight:
+                            b.send(2, 21, 9, 422)
+                        b.steps.append(dict(op="peer_send", typ=31, id=base + 1, ver=version, pl=dict(k="tag", len=7, tag=424)))
+                        b.wait(2)
+                        b.op("state")
+                    b.op("peer_close")
+                    finish(b, [1, 2] if (inflight or how == "cancel") else [1], "split-" + how, "req1", other=other, cut=cut)
     return out
 
 
@@ -303,6 +335,24 @@ def pred_script(s, g):
         st_obs = [o for st, o in zip(steps, obs) if st["op"] == "state"]
         if st_obs and st_obs[0].get("awaiting") not in (0, None):
             extra.append(("cancel-leaves-await-entry", "awaiting map has %s entries after both requests ended (script %s)" % (st_obs[0].get("awaiting"), s["id"])))
+    fam = s.get("family") or ""
+    if fam.startswith("split-"):
+        sig = "reply-split-across-%s-wedges-read-loop" % fam[6:]
+        what = []
+        for i, (st, o) in enumerate(zip(steps, obs)):
+            if st["op"] == "peer_send" and o.get("st") != "ok":
+                what.append("step %d: the client did not take the peer's frame (typ %s%s): %s" % (
+                    i, st.get("typ"), ", rest of the split reply" if st.get("skip") is not None else "", o.get("st")))
+        if fam == "split-cancel":
+            w = [o for st, o in zip(steps, obs) if st["op"] == "wait_caller" and st["caller"] == s["other"]]
+            if not w or w[0].get("res") != "ok":
+                what.append("caller %d did not get its reply after caller 1 was cancelled in the middle of its own reply: %s" % (
+                    s["other"], w[0].get("res") if w else None))
+            what += [t for _, t in cc.pred_c03(view)]
+        what += ["%s still blocked after the connection ended" % b[0] for b in bad]
+        if what:
+            return extra + [(sig, "%s (script %s: reply cut after %d bytes)" % ("; ".join(what), s["id"], s.get("cut")))]
+        return extra
     if not bad:
         return extra
     phase = s.get("phase")
